@@ -17,6 +17,10 @@ func (vc *VC) bindResult(n *Node, x ssa.Value, sig *types.Signature, vals []Val)
 				vc.callCount = map[string]int{}
 			}
 			vc.callRes[contractName(sc)] = vals
+			if vc.callSt == nil {
+				vc.callSt = map[string]*State{}
+			}
+			vc.callSt[contractName(sc)] = n.st.clone()
 			vc.callCount[contractName(sc)]++
 			// also by ordinal: "F#k" is the k-th call of F in the order the generator meets them (block order)
 			vc.callRes[fmt.Sprintf("%s#%d", contractName(sc), vc.callCount[contractName(sc)])] = vals
